@@ -95,23 +95,30 @@ class World:
     def nameid(self, s):
         return s[1:] if isinstance(s, str) and s.startswith("N") else f"?{s}"
 
+    def oshow(self, x):
+        """identifier of an origin object; anything else that turns up in an origin look-up is shown as such"""
+        return self.oid[id(x)] if id(x) in self.oid else f"<{type(x).__name__} {getattr(x, 'name', '?')}>"
+
+    def dshow(self, x):
+        return self.did[id(x)] if id(x) in self.did else f"<{type(x).__name__} {getattr(x, 'name', '?')}>"
+
     def show_lookup(self, key, val):
         if key in ("nodes_by_name", "links_by_name"):
             return ",".join(f"{self.nameid(k)}={self.show(v)}" for k, v in val.items())
         if key == "nodes_by_link":
             return ",".join(f"{self.show(k)}={self.show(v[0])}>{self.show(v[1])}" for k, v in val.items())
         if key == "origins":
-            return ",".join(f"{self.oid[id(k)]}={self.show(v)}" for k, v in val.items())
+            return ",".join(f"{self.oshow(k)}={self.show(v)}" for k, v in val.items())
         if key == "destinations":
-            return ",".join(f"{self.did[id(k)]}={self.show(v)}" for k, v in val.items())
+            return ",".join(f"{self.dshow(k)}={self.show(v)}" for k, v in val.items())
         if key == "origins_by_name":
-            return ",".join(f"{self.nameid(k)}={self.oid[id(v)]}" for k, v in val.items())
+            return ",".join(f"{self.nameid(k)}={self.oshow(v)}" for k, v in val.items())
         if key == "destinations_by_name":
-            return ",".join(f"{self.nameid(k)}={self.did[id(v)]}" for k, v in val.items())
+            return ",".join(f"{self.nameid(k)}={self.dshow(v)}" for k, v in val.items())
         if key == "origins_by_node":
-            return ",".join(f"{self.show(k)}={self.oid[id(v)]}" for k, v in val.items())
+            return ",".join(f"{self.show(k)}={self.oshow(v)}" for k, v in val.items())
         if key == "destinations_by_node":
-            return ",".join(f"{self.show(k)}={self.did[id(v)]}" for k, v in val.items())
+            return ",".join(f"{self.show(k)}={self.dshow(v)}" for k, v in val.items())
         raise KeyError(key)
 
     def fresh_lookups(self):
